@@ -51,7 +51,8 @@
     (ite (str.suffixof "'" a) (str.substr a 0 (- (str.len a) 1)) a)))
 ; strings.ToLower, named; ASSUMED: the decimal rendering of an integer has no letters
 (declare-fun lowerS (String) String)
-(assert (forall ((n Int)) (! (= (lowerS (int_to_str n)) (int_to_str n)) :pattern ((lowerS (int_to_str n))))))
+(assert (forall ((n Int)) (= (lowerS (int_to_str n)) (int_to_str n))))
+(assert (forall ((n Int)) (! (= (lowerS (str.++ "-" (str.from_int n))) (str.++ "-" (str.from_int n))) :pattern ((lowerS (str.++ "-" (str.from_int n)))))))
 (define-fun boolTextTrue ((s String)) Bool (or (= s "true") (= s "t") (= s "yes") (= s "y") (= s "1") (= s "1.0")))
 (define-fun boolTextFalse ((s String)) Bool (or (= s "false") (= s "f") (= s "no") (= s "n") (= s "0") (= s "0.0")))
 ; hexadecimal digit (as a byte / code point)
@@ -59,3 +60,7 @@
 (declare-fun upperS (String) String)
 ; the collection distinct() yields, named (defined by impl.Distinct's contract)
 (declare-fun distinctS (Slice_Any) Slice_Any)
+; ground instances of the same fact (the solvers rewrite (str.from_int 1) to "1" before matching)
+(assert (= (lowerS "0") "0"))
+(assert (= (lowerS "1") "1"))
+(assert (forall ((n Int)) (! (= (lowerS (str.from_int n)) (str.from_int n)) :pattern ((lowerS (str.from_int n))))))
